@@ -1378,7 +1378,12 @@ def compare(case, impl, model):
         extra = [i for i in rec['objs'] if i not in m['objs']]
         if extra:
             return '%s: objects %s re-sample differently, model predicts changes only for %s' % (where, extra, m['objs'])
-        if sorted(rec['meta_changed']) != sorted(m['meta_changed']):
+        mchg = list(m['meta_changed'])
+        if conc.get('deep') and conc.get('o') in mchg and conc.get('o') not in rec['meta_changed']:
+            # a deep edit that left the nested value as it was (the same tag written again): the flat model does not
+            # keep the list- / dict-valued entries of composites (astropy's recursive merge) and so sees an assignment
+            mchg.remove(conc['o'])
+        if sorted(rec['meta_changed']) != sorted(mchg):
             return '%s: metadata changed for %s, model predicts %s' % (where, rec['meta_changed'], m['meta_changed'])
         for i, mc in rec['meta'].items():
             mm = m['meta'].get(i)
